@@ -481,7 +481,12 @@ class Interp:
         if isinstance(op, ast.NotEq):
             return _not(self.equal(a, b, node))
         if isinstance(a, OptV) or isinstance(b, OptV):
-            raise Unsupported("ordering on Optional", node)
+            # None < x is a TypeError: obligation "not None", then the ordering of the values
+            for x in (a, b):
+                if isinstance(x, OptV):
+                    self.safe("not_none", z3.Not(x.isnone), node)
+            a = a.val if isinstance(a, OptV) else a
+            b = b.val if isinstance(b, OptV) else b
         if not is_z3(a) and not is_z3(b):
             return {ast.Lt: lambda: a < b, ast.LtE: lambda: a <= b, ast.Gt: lambda: a > b,
                     ast.GtE: lambda: a >= b}[type(op)]()
@@ -607,7 +612,22 @@ class Interp:
         return d
 
     def eval_JoinedStr(self, node, fr):
-        return "<fstring@%s>" % node.lineno
+        # f-string: literal text and *integer-valued names* are kept (path components like f"iter_{i}"); anything else is an
+        # opaque message placeholder (messages are never inspected)
+        parts = []
+        for v in node.values:
+            if isinstance(v, ast.Constant) and isinstance(v.value, str):
+                parts.append(v.value)
+            elif isinstance(v, ast.FormattedValue) and isinstance(v.value, ast.Name) and v.conversion == -1 and v.format_spec is None \
+                    and v.value.id in fr.locals and (isinstance(fr.locals[v.value.id], int) or is_sym_int(fr.locals[v.value.id])) \
+                    and not isinstance(fr.locals[v.value.id], bool):
+                parts.append(fr.locals[v.value.id])
+            else:
+                return "<fstring@%s>" % node.lineno
+        if all(isinstance(x, str) for x in parts):
+            return "".join(parts)
+        from .lib.fs import FStr
+        return FStr(parts)
 
     def eval_BinOp(self, node, fr):
         return self.binop(node.op, self.eval(node.left, fr), self.eval(node.right, fr), node)
@@ -1187,6 +1207,28 @@ class Interp:
         v = self.eval(st.value, fr)
         for t in st.targets:
             self.assign(t, v, fr)
+        ct = getattr(fr, "contract", None)
+        if ct is not None and getattr(ct, "afters", None) and len(st.targets) == 1 and isinstance(st.targets[0], ast.Name):
+            # ghost lemmas attached to "after the assignment to <name>": proved here (small context), then available below
+            for ordinal, f in ct.afters.get(st.targets[0].id, []):
+                seen = fr.__dict__.setdefault("_after_seen", {})
+                n = seen.get(st.targets[0].id, 0)
+                if ordinal is not None and ordinal != self._assign_ordinal(fr, st):
+                    continue
+                label = "%s/lemma@%s" % (self._cur_label if fr.depth == 0 else fr.qualname, st.targets[0].id)
+                for nm, g in named(_aslist(f(self.state_view(fr, None, None))), "lemma"):
+                    self.ctx.prove("%s:%s" % (label, nm), g, st, "lemma")
+
+    def _assign_ordinal(self, fr, st):
+        """k for the k-th assignment statement (in source order) to that name in the function"""
+        name = st.targets[0].id
+        k = 0
+        for n in ast.walk(fr.fn_node):
+            if isinstance(n, ast.Assign) and len(n.targets) == 1 and isinstance(n.targets[0], ast.Name) and n.targets[0].id == name:
+                if n is st:
+                    return k
+                k += 1
+        return -1
 
     def exec_AnnAssign(self, st, fr):
         if st.value is not None:
